@@ -239,10 +239,6 @@ func (vm *VM) convertPanic(msg any) error {
 				return vm.newPanic(runtimeError(s))
 			}
 		}
-	case OpGo:
-		if err, ok := msg.(error); ok {
-			return err
-		}
 	case OpIf, -OpIf:
 		if err, ok := msg.(runtime.Error); ok {
 			s := err.Error()
